@@ -167,6 +167,11 @@ func ParamParser(to reflect.Value, section *config_parser.Section, ignoreType []
 			if !ok {
 				return fmt.Errorf("unexpected key: %v", itemVal.Name)
 			}
+			if !field.Set && field.Val.Kind() == reflect.Slice {
+				// A list written in section form replaces the default value, exactly like
+				// the "key: a, b" form does; it must not be appended to the default.
+				field.Val.Set(reflect.Zero(field.Val.Type()))
+			}
 			if err := SectionParser(field.Val.Addr(), itemVal); err != nil {
 				return fmt.Errorf("failed to parse %v: %w", itemVal.Name, err)
 			}
